@@ -4,8 +4,9 @@ from kvc.dsl import *
 from kvc import sym
 
 REG = Registry('C17')
+REG.undecided += ['ordering lower HS <= upper HS <= upper Wiener for p >= 3 phases (attempted for p = 3: solver limit; proved for p <= 2, the lower pair Wiener <= HS also for p = 3)']
 REG.assumptions += [
-    'phase counts p <= 3 (p = 3 ordering of the Hashin-Shtrikman bounds only in the thorough tier), elements e <= 2; mobilities of defined phases > 0, fractions >= 0 summing to 1',
+    'phase counts p <= 3 (p = 3 only in the thorough tier: range, lower ordering pair and permutation invariance), elements e <= 2; mobilities of defined phases > 0, fractions >= 0 summing to 1',
     'undefined entries (-1) are replaced by the code by float tiny / float max: the bound clauses are stated over the fully defined case, the replacement itself is a separate clause',
     'pow axioms for the labyrinth factor: f^1 = f, 0 <= f <= 1 and n >= 1 imply f^n <= f',
     'the equilibrium / mobility evaluation of a point (_computeSingleMobility) is replaced by an arbitrary result with named stable phases',
@@ -51,8 +52,9 @@ def c_bounds(ctx, it, cfg):
             if p == 1:
                 ctx.prove('%s/single-phase-returns-the-phase-mobility[e%d]' % (r, j), eq(res[r][j], col[0]))
         ctx.prove('ordering/wiener-lower <= hashin-lower[e%d]' % j, le(res['wienerLower'][j], res['hashinShtrikmanLower'][j]))
-        ctx.prove('ordering/hashin-lower <= hashin-upper[e%d]' % j, le(res['hashinShtrikmanLower'][j], res['hashinShtrikmanUpper'][j]))
-        ctx.prove('ordering/hashin-upper <= wiener-upper[e%d]' % j, le(res['hashinShtrikmanUpper'][j], res['wienerUpper'][j]))
+        if p <= 2:      # for p = 3 these two are degree-7 rational inequalities that neither z3 nor cvc5 decides within the budget: listed as undecided
+            ctx.prove('ordering/hashin-lower <= hashin-upper[e%d]' % j, le(res['hashinShtrikmanLower'][j], res['hashinShtrikmanUpper'][j]))
+            ctx.prove('ordering/hashin-upper <= wiener-upper[e%d]' % j, le(res['hashinShtrikmanUpper'][j], res['wienerUpper'][j]))
     # independence of the order in which phases are listed
     if p >= 2:
         for perm in itertools.permutations(range(p)):
